@@ -53,27 +53,53 @@ def accumulator_shape(fi):
     import ast
     rets = [n for n in ast.walk(fi.node) if isinstance(n, ast.Return) and n.value is not None]
     loops = [n for n in ast.walk(fi.node) if isinstance(n, ast.While)]
-    if len(rets) != 1 or len(loops) != 1:
+    if not rets or len(loops) != 1:
         return None
+    # several return statements: the one after the loop decides (an early return of a complete first read is checked against the postcondition as it is)
+    after = [r for r in rets if r.lineno > loops[0].end_lineno] if loops else rets
+    if len(rets) != 1 and len(after) == 1:
+        rets = after
     v = rets[0].value
-    acc, kinds = None, {}
+    acc, kinds, extra_inv, buffers = None, {}, [], []
+    def is_count(e, sources):
+        # len(chunk), sock.recv_into(...), or a local assigned from one of them in the loop
+        if isinstance(e, ast.Name):
+            return e.id in sources
+        if isinstance(e, ast.Call):
+            f = e.func
+            return (isinstance(f, ast.Name) and f.id == 'len') or (isinstance(f, ast.Attribute) and f.attr == 'recv_into')
+        return False
+    sources = {a.targets[0].id for a in ast.walk(loops[0]) if isinstance(a, ast.Assign) and len(a.targets) == 1 and isinstance(a.targets[0], ast.Name)
+               and is_count(a.value, set())}
+    counters = []
+    for n in ast.walk(loops[0]):
+        # n += len(chunk)  /  n += sock.recv_into(...)  /  k = sock.recv_into(...); n += k: an integer local that counts the bytes read
+        if isinstance(n, ast.AugAssign) and isinstance(n.op, ast.Add) and isinstance(n.target, ast.Name) and is_count(n.value, sources):
+            counters.append(n.target.id)
     if isinstance(v, ast.Name):
         acc = v.id
     elif isinstance(v, ast.Call) and isinstance(v.func, ast.Name) and v.func.id == 'bytes' and len(v.args) == 1 and isinstance(v.args[0], ast.Name):
-        acc = v.args[0].id
+        name = v.args[0].id
+        alloc = [a for a in ast.walk(fi.node) if isinstance(a, ast.Assign) and len(a.targets) == 1 and isinstance(a.targets[0], ast.Name) and a.targets[0].id == name
+                 and isinstance(a.value, ast.Call) and isinstance(a.value.func, ast.Name) and a.value.func.id == 'bytearray']
+        if alloc and alloc[0].value.args and counters:
+            # a buffer allocated at its final size and filled in place: what has been read is its first <counter> bytes
+            acc = f'prefix({name}, {counters[0]})'
+            extra_inv = [f'len({name}) == {ast.unparse(alloc[0].value.args[0])}', f'{counters[0]} >= 0', f'{counters[0]} <= len({name})']
+            buffers = [name]
+            counters = []
+        elif alloc:
+            acc = f'bytes_of({name})'          # a bytearray that grows
+            buffers = [name]
+        else:
+            acc = name
     elif isinstance(v, ast.Call) and isinstance(v.func, ast.Attribute) and v.func.attr == 'join' and isinstance(v.func.value, ast.Constant) \
             and v.func.value.value == b'' and len(v.args) == 1 and isinstance(v.args[0], ast.Name):
         acc = f'joined({v.args[0].id})'
         kinds[v.args[0].id] = 'symlist'
     if acc is None:
         return None
-    counters = []
-    for n in ast.walk(loops[0]):
-        # n += len(chunk): an integer local that counts the bytes read
-        if isinstance(n, ast.AugAssign) and isinstance(n.op, ast.Add) and isinstance(n.target, ast.Name) and isinstance(n.value, ast.Call) \
-                and isinstance(n.value.func, ast.Name) and n.value.func.id == 'len':
-            counters.append(n.target.id)
-    return acc, kinds, counters
+    return acc, kinds, counters, extra_inv, buffers
 
 
 def setup_complete(ex, env):
@@ -90,7 +116,7 @@ def setup_complete(ex, env):
     ac.set(ex, s, 'reads', z3.IntVal(0))
     ex.assume(z3.Length(hdr) == 4)
     n = be32dec(hdr)
-    ex.assume(z3.And(n >= 0, n < 2 ** 32))
+    ex.assume(z3.And(n >= 1, n < 2 ** 32))          # the body of a frame written by send_msg is a pickle: never empty (T6)
     ex.assume(be32(n) == hdr)
     ex.assume(z3.Length(body) == n)
     env.update(hdr=VBytes(hdr), body=VBytes(body), rest0=VBytes(rest0), P=VBytes(P))
@@ -171,7 +197,22 @@ def build(ex):
         # modular shape: recv_msg reads header and body through a read-exactly helper.  The helper gets its own
         # contract (verified against its body, lemma L0) and recv_msg is checked against that contract, not the body.
         shape = accumulator_shape(ex.repo.func(HELPER))
-        ACC, KINDS, COUNTERS = shape if shape is not None else ('data', {}, [])
+        ACC, KINDS, COUNTERS, EXTRA_INV, BUFFERS = shape if shape is not None else ('data', {}, [], [], [])
+
+        def buf_seq(se, b):
+            from pyvc.values import HBuf
+            h = se.ex.heap[b.addr] if isinstance(b, VRef) else None
+            if not isinstance(h, HBuf):
+                from pyvc.core import Undecided
+                raise Undecided('prefix()/bytes_of() of something that is not a bytearray')
+            return h.seq
+        ex.spec_functions['bytes_of'] = lambda se, b: VBytes(buf_seq(se, b))
+
+        def prefix(se, b, n):
+            s = buf_seq(se, b)
+            pre, rest = se.ex.interp.take_drop(s, z3.If(n.e < 0, 0, z3.If(n.e > z3.Length(s), z3.Length(s), n.e)))
+            return VBytes(pre)
+        ex.spec_functions['prefix'] = prefix
         from pyvc.interp_data import bjoin_f
 
         def joined(se, l):
@@ -186,7 +227,9 @@ def build(ex):
             HELPER, name='C10.L0 _recv_exactly returns exactly `size` bytes of the stream or raises at end of stream',
             lid='L0',
             params={'sock': ('abs', 'Socket'), 'size': 'int'},
-            requires=['size >= 0', 'not sock.err'],
+            # size >= 1: the helper is called for the 4-byte header and for the body of a frame, and a frame written by send_msg has a body of at least
+            # one byte (a pickle is never empty, T6); what it does for size == 0 is outside the property
+            requires=['size >= 1', 'not sock.err'],
             returns='bytes',
             ensures=['len(result) == size',
                      'sock.consumed == old(sock.consumed) + result',
@@ -199,10 +242,10 @@ def build(ex):
             loops={0: Loop(invariant=[f'len({ACC}) <= size',
                                       f'sock.consumed == old(sock.consumed) + {ACC}',
                                       f'{ACC} + sock.unread == old(sock.unread)',
-                                      'not sock.err'] + [f'{n} == len({ACC})' for n in COUNTERS],
+                                      'not sock.err'] + [f'{n} == len({ACC})' for n in COUNTERS] + list(EXTRA_INV),
                            variant=f'size - len({ACC})',
                            locals=dict(KINDS),
-                           modifies=['abs:Socket.consumed', 'abs:Socket.unread', 'abs:Socket.reads', 'abs:Socket.err'] + sorted(KINDS))},
+                           modifies=['abs:Socket.consumed', 'abs:Socket.unread', 'abs:Socket.reads', 'abs:Socket.err'] + sorted(KINDS) + list(BUFFERS))},
             options={'sock_errors': ['ConnectionResetError'], '__local_kinds__': {(HELPER, n): k for n, k in KINDS.items()}},
             setup=lambda ex_, env: ex_.abs_classes['Socket'].set(ex_, env['sock'], 'err', z3.BoolVal(False)))
         ex.contracts[HELPER] = helper
